@@ -642,3 +642,603 @@ Proof.
 Qed.
 
 End DRF.
+
+(* ---------- Part 4: the phase programs generated from a footprint ------------------------------------- *)
+
+Definition neutral (a : act) : bool :=
+  match a with ARd _ => true | AWr _ => true | AAtom _ => true | ATau => true | ALock _ => true | AUnlock _ => true
+  | _ => false end.
+
+Lemma wsum_neutral : forall (w : act -> nat) l, (forall a, neutral a = true -> w a = 0) ->
+  forallb neutral l = true -> wsum w l = 0.
+Proof.
+  intros w l Hw. induction l as [|a l IH]; intros H; [reflexivity|].
+  cbn [forallb] in H. apply andb_true_iff in H. destruct H as [Ha Hl]. cbn [wsum]. rewrite (Hw a Ha), (IH Hl). reflexivity.
+Qed.
+
+Lemma forallb_flat_map : forall A (p : act -> bool) (f : A -> list act) l,
+  (forall x, In x l -> forallb p (f x) = true) -> forallb p (flat_map f l) = true.
+Proof.
+  intros A p f l H. induction l as [|x l IH]; [reflexivity|]. cbn [flat_map]. rewrite forallb_app.
+  rewrite (H x) by (left; reflexivity). apply IH. intros; apply H; right; assumption.
+Qed.
+
+Lemma neutral_acc : forall w v, neutral (acc_of w v) = true.
+Proof. intros [] v; reflexivity. Qed.
+
+Lemma main_accs_neutral : forall sel fp, forallb neutral (main_accs sel fp) = true.
+Proof.
+  intros sel fp. unfold main_accs. apply forallb_flat_map. intros cv _. destruct (cv_sync cv); [reflexivity|].
+  apply forallb_forall. intros a Ha. apply in_map_iff in Ha. destruct Ha as [w [<- _]]. apply neutral_acc.
+Qed.
+
+Lemma child_access_neutral : forall v x b, forallb neutral (child_access v x b) = true.
+Proof.
+  intros v [[w l] onfail] b. unfold child_access. destruct (onfail && negb b); [reflexivity|].
+  destruct l; cbn [forallb]; rewrite neutral_acc; reflexivity.
+Qed.
+
+Lemma child_body_neutral : forall fp b, forallb neutral (child_body fp b) = true.
+Proof.
+  intros fp b. unfold child_body. apply forallb_flat_map. intros cv _. destruct (cv_sync cv); [reflexivity|].
+  apply forallb_flat_map. intros x _. apply child_access_neutral.
+Qed.
+
+Lemma wsum_flat_map_const : forall A (w : act -> nat) (f : A -> list act) k l,
+  (forall x, In x l -> wsum w (f x) = k) -> wsum w (flat_map f l) = k * length l.
+Proof.
+  intros A w f k l H. induction l as [|x l IH]; [cbn; lia|].
+  cbn [flat_map length]. rewrite wsum_app, (H x) by (left; reflexivity). rewrite IH by (intros; apply H; right; assumption). lia.
+Qed.
+
+Lemma wsum_map_go_len : forall l, wsum (ind is_go) (map AGo l) = length l.
+Proof. induction l as [|x l IH]; [reflexivity|]. cbn [map wsum length]. rewrite IH. reflexivity. Qed.
+
+Lemma count_go_seq : forall u k a,
+  countf (is_go_to u) (map AGo (seq a k)) = if Nat.leb a u && Nat.ltb u (a + k) then 1 else 0.
+Proof.
+  intros u k. induction k as [|k IH]; intros a.
+  - cbn [seq map]. destruct (Nat.leb_spec a u), (Nat.ltb_spec u (a + 0)); cbn; try reflexivity; lia.
+  - cbn [seq map]. rewrite countf_cons, IH. unfold ind, is_go_to.
+    destruct (Nat.eqb_spec a u), (Nat.leb_spec (S a) u), (Nat.ltb_spec u (S a + k)), (Nat.leb_spec a u), (Nat.ltb_spec u (a + S k));
+      cbn; try reflexivity; lia.
+Qed.
+
+Section Phase.
+Variable fp : footprint.
+Variables n passes : nat.
+Variable fails : nat -> bool.
+Hypothesis Hfp : footprint_race_free fp = true.
+Let N := n * passes.
+Let prog := phase_prog fp n passes fails.
+
+Lemma fp_flags : fp_add_before_go fp = true /\ fp_done_deferred fp = true /\ fp_wait_after fp = true
+  /\ nodupb (map cv_id (fp_vars fp)) = true /\ forallb cvar_ok (fp_vars fp) = true.
+Proof.
+  pose proof Hfp as H. unfold footprint_race_free in H.
+  apply andb_true_iff in H. destruct H as [H H5]. apply andb_true_iff in H. destruct H as [H H4].
+  apply andb_true_iff in H. destruct H as [H H3]. apply andb_true_iff in H. destruct H as [H1 H2].
+  repeat split; assumption.
+Qed.
+
+Definition round (p : nat) : list act :=
+  main_accs cv_pre fp ++ [AAdd n] ++ map AGo (round_tids n p) ++ main_accs cv_mid fp ++ [AWait] ++ main_accs cv_post fp.
+
+Lemma round_eq : forall p, phase_round fp n p = round p.
+Proof. intros p. destruct fp_flags as [H1 [_ [H3 _]]]. unfold phase_round, round. rewrite H1, H3. reflexivity. Qed.
+
+Lemma main_eq : prog 0 = flat_map round (seq 0 passes).
+Proof.
+  unfold prog, phase_prog, phase_main. cbn [Nat.eqb]. apply flat_map_ext. intros p. apply round_eq.
+Qed.
+
+Lemma child_eq : forall u, 1 <= u <= N -> prog u = (child_body fp (fails u) ++ [ATau]) ++ [ADone].
+Proof.
+  intros u [H1 H2]. destruct fp_flags as [_ [Hd _]]. unfold prog, phase_prog, phase_child.
+  destruct (Nat.eqb u 0) eqn:E; [apply Nat.eqb_eq in E; lia|].
+  fold N. apply Nat.leb_le in H2. rewrite H2, Hd. rewrite <- app_assoc. reflexivity.
+Qed.
+
+Lemma P_out' : forall u, S N <= u -> prog u = [].
+Proof.
+  intros u H. unfold prog, phase_prog. destruct (Nat.eqb u 0) eqn:E; [apply Nat.eqb_eq in E; lia|].
+  fold N. destruct (Nat.leb u N) eqn:E2; [apply Nat.leb_le in E2; lia|reflexivity].
+Qed.
+
+(* weights of a round for weights that vanish on neutral actions *)
+Lemma round_w : forall (w : act -> nat) p, (forall a, neutral a = true -> w a = 0) ->
+  wsum w (round p) = w (AAdd n) + wsum w (map AGo (round_tids n p)) + w AWait.
+Proof.
+  intros w p Hw. unfold round. rewrite !wsum_app.
+  rewrite !(wsum_neutral w (main_accs _ fp) Hw (main_accs_neutral _ fp)). cbn [wsum]. lia.
+Qed.
+
+Lemma body_w : forall (w : act -> nat) b, (forall a, neutral a = true -> w a = 0) ->
+  wsum w (child_body fp b ++ [ATau]) = 0.
+Proof.
+  intros w b Hw. rewrite wsum_app, (wsum_neutral w _ Hw (child_body_neutral fp b)). cbn [wsum]. rewrite (Hw ATau eq_refl). reflexivity.
+Qed.
+
+Lemma ind_neutral : forall f, (forall a, neutral a = true -> f a = false) -> forall a, neutral a = true -> ind f a = 0.
+Proof. intros f H a Ha. unfold ind. rewrite (H a Ha). reflexivity. Qed.
+
+Lemma neutral_not_done : forall a, neutral a = true -> is_done a = false. Proof. destruct a; cbn; congruence. Qed.
+Lemma neutral_not_go : forall a, neutral a = true -> is_go a = false. Proof. destruct a; cbn; congruence. Qed.
+Lemma neutral_not_go_to : forall u a, neutral a = true -> is_go_to u a = false. Proof. destruct a; cbn; congruence. Qed.
+Lemma neutral_not_wait : forall a, neutral a = true -> is_wait a = false. Proof. destruct a; cbn; congruence. Qed.
+Lemma neutral_no_add : forall a, neutral a = true -> add_w a = 0. Proof. destruct a; cbn; congruence. Qed.
+
+Lemma H_child' : forall u, 1 <= u <= N ->
+  exists body, prog u = body ++ [ADone] /\ countf is_done body = 0 /\ adds body = 0 /\ countf is_go body = 0.
+Proof.
+  intros u Hu. exists (child_body fp (fails u) ++ [ATau]). split; [apply child_eq; assumption|].
+  repeat split.
+  - apply body_w. apply ind_neutral, neutral_not_done.
+  - apply body_w. apply neutral_no_add.
+  - apply body_w. apply ind_neutral, neutral_not_go.
+Qed.
+
+Lemma H_main_nodone' : countf is_done (prog 0) = 0.
+Proof.
+  rewrite main_eq. unfold countf. rewrite (wsum_flat_map_const _ _ _ 0); [lia|].
+  intros p _. rewrite round_w by (apply ind_neutral, neutral_not_done). cbn [ind is_done].
+  rewrite wsum_map_go by reflexivity. reflexivity.
+Qed.
+
+Lemma H_go_total' : countf is_go (prog 0) = N.
+Proof.
+  rewrite main_eq. unfold countf. rewrite (wsum_flat_map_const _ _ _ n).
+  - rewrite seq_length. reflexivity.
+  - intros p _. rewrite round_w by (apply ind_neutral, neutral_not_go). cbn [ind is_go].
+    rewrite wsum_map_go_len. unfold round_tids. rewrite seq_length. lia.
+Qed.
+
+Lemma adds_total : adds (prog 0) = N.
+Proof.
+  rewrite main_eq. unfold adds. rewrite (wsum_flat_map_const _ _ _ n).
+  - rewrite seq_length. reflexivity.
+  - intros p _. rewrite round_w by apply neutral_no_add. cbn [add_w]. rewrite wsum_map_go by reflexivity. lia.
+Qed.
+
+Lemma H_go_range' : forall v, In (AGo v) (prog 0) -> 1 <= v <= N.
+Proof.
+  intros v H. rewrite main_eq in H. apply in_flat_map in H. destruct H as [p [Hp Hin]].
+  apply in_seq in Hp. unfold round in Hin.
+  assert (Hnot : forall sel, ~ In (AGo v) (main_accs sel fp)).
+  { intros sel Hx. pose proof (main_accs_neutral sel fp) as Hn. rewrite forallb_forall in Hn. specialize (Hn _ Hx). discriminate. }
+  apply in_app_or in Hin. destruct Hin as [Hin|Hin]; [exfalso; eapply Hnot; eassumption|].
+  apply in_app_or in Hin. destruct Hin as [[Hin|[]]|Hin]; [discriminate|].
+  apply in_app_or in Hin. destruct Hin as [Hin|Hin].
+  - apply in_map_iff in Hin. destruct Hin as [x [Hx Hs]]. inversion Hx; subst x. unfold round_tids in Hs.
+    apply in_seq in Hs. unfold N. assert (p * n + n <= passes * n).
+    { replace (p * n + n) with (S p * n) by (cbn; lia). apply Nat.mul_le_mono_r. lia. }
+    lia.
+  - apply in_app_or in Hin. destruct Hin as [Hin|Hin]; [exfalso; eapply Hnot; eassumption|].
+    apply in_app_or in Hin. destruct Hin as [[Hin|[]]|Hin]; [discriminate|exfalso; eapply Hnot; eassumption].
+Qed.
+
+Lemma go_to_rounds : forall u k p0,
+  countf (is_go_to u) (flat_map round (seq p0 k)) =
+  if Nat.leb (1 + p0 * n) u && Nat.ltb u (1 + (p0 + k) * n) then 1 else 0.
+Proof.
+  intros u k. induction k as [|k IH]; intros p0.
+  - cbn [seq flat_map]. replace (p0 + 0) with p0 by lia.
+    destruct (Nat.leb_spec (1 + p0 * n) u), (Nat.ltb_spec u (1 + p0 * n)); cbn; try reflexivity; lia.
+  - cbn [seq flat_map]. rewrite countf_app, IH. unfold countf at 1.
+    rewrite round_w by (apply ind_neutral, neutral_not_go_to). cbn [ind is_go_to].
+    fold (countf (is_go_to u)). unfold round_tids. rewrite count_go_seq.
+    assert (E1 : S p0 * n = n + p0 * n) by (cbn; lia).
+    assert (E2 : (S p0 + k) * n = (p0 + S k) * n) by (f_equal; lia).
+    assert (E3 : (p0 + S k) * n = p0 * n + n + k * n) by lia.
+    rewrite E2.
+    destruct (Nat.leb_spec (1 + p0 * n) u), (Nat.ltb_spec u (1 + p0 * n + n)), (Nat.leb_spec (1 + S p0 * n) u),
+      (Nat.ltb_spec u (1 + (p0 + S k) * n)); cbn; try reflexivity; lia.
+Qed.
+
+Lemma H_go_once' : forall u, 1 <= u <= N -> countf (is_go_to u) (prog 0) = 1.
+Proof.
+  intros u [H1 H2]. rewrite main_eq, go_to_rounds. cbn [Nat.mul Nat.add]. unfold N in H2.
+  replace (passes * n) with (n * passes) by lia.
+  destruct (Nat.leb_spec 1 u), (Nat.ltb_spec u (S (n * passes))); cbn; try reflexivity; lia.
+Qed.
+
+
+(* --- Wait balance ------------------------------------------------------------------------------- *)
+
+Fixpoint bal_ok (l : list act) (a g : nat) : bool :=
+  match l with
+  | [] => true
+  | AAdd k :: r => bal_ok r (a + k) g
+  | AGo _ :: r => bal_ok r a (S g)
+  | AWait :: r => Nat.eqb a g && bal_ok r a g
+  | _ :: r => bal_ok r a g
+  end.
+
+Lemma bal_ok_decomp : forall P l a g S, bal_ok l a g = true -> l = P ++ AWait :: S ->
+  a + adds P = g + countf is_go P.
+Proof.
+  induction P as [|x P IH]; intros l a g S H Heq; subst l.
+  - cbn in H. apply andb_true_iff in H. destruct H as [H _]. apply Nat.eqb_eq in H. cbn. lia.
+  - unfold adds, countf in *. cbn [app wsum]. destruct x; cbn [bal_ok app] in H;
+      try (apply andb_true_iff in H; destruct H as [_ H]);
+      specialize (IH _ _ _ _ H eq_refl); cbn [add_w ind is_go]; lia.
+Qed.
+
+Lemma bal_neutral : forall l r a g, forallb neutral l = true -> bal_ok (l ++ r) a g = bal_ok r a g.
+Proof.
+  induction l as [|x l IH]; intros r a g H; [reflexivity|].
+  cbn [forallb] in H. apply andb_true_iff in H. destruct H as [Hx Hl].
+  destruct x; try discriminate; cbn [app bal_ok]; apply IH; assumption.
+Qed.
+
+Lemma bal_gos : forall l r a g, bal_ok (map AGo l ++ r) a g = bal_ok r a (length l + g).
+Proof.
+  induction l as [|x l IH]; intros r a g; [reflexivity|].
+  cbn [map app bal_ok length]. rewrite IH. f_equal. lia.
+Qed.
+
+Lemma bal_rounds : forall ps a, bal_ok (flat_map round ps) a a = true.
+Proof.
+  induction ps as [|p ps IH]; intros a; [reflexivity|].
+  cbn [flat_map]. unfold round. rewrite <- !app_assoc.
+  rewrite bal_neutral by apply main_accs_neutral. cbn [app bal_ok].
+  rewrite bal_gos, bal_neutral by apply main_accs_neutral. cbn [app bal_ok].
+  unfold round_tids. rewrite seq_length.
+  replace (Nat.eqb (a + n) (n + a)) with true by (symmetry; apply Nat.eqb_eq; lia). cbn [andb].
+  rewrite bal_neutral by apply main_accs_neutral.
+  replace (n + a) with (a + n) by lia. apply IH.
+Qed.
+
+Lemma H_bal' : forall P S, prog 0 = P ++ AWait :: S -> adds P = countf is_go P.
+Proof.
+  intros P S H. rewrite main_eq in H.
+  pose proof (bal_ok_decomp P _ 0 0 S (bal_rounds (seq 0 passes) 0) H). lia.
+Qed.
+
+(* --- nodup ids -------------------------------------------------------------------------------- *)
+
+Lemma mem_nat_In : forall x l, mem_nat x l = true <-> In x l.
+Proof.
+  intros x l. induction l as [|y l IH]; cbn [mem_nat In]; [split; [discriminate|tauto]|].
+  rewrite orb_true_iff, IH, Nat.eqb_eq. split; intros [H|H]; auto.
+Qed.
+
+Lemma nodup_ids : forall (l : list cvar) cv cv', nodupb (map cv_id l) = true ->
+  In cv l -> In cv' l -> cv_id cv = cv_id cv' -> cv = cv'.
+Proof.
+  induction l as [|x l IH]; intros cv cv' Hn H1 H2 Hid; [destruct H1|].
+  cbn [map nodupb] in Hn. apply andb_true_iff in Hn. destruct Hn as [Hx Hn].
+  apply negb_true_iff in Hx.
+  assert (Hnot : forall y, In y l -> cv_id y <> cv_id x).
+  { intros y Hy Heq. assert (mem_nat (cv_id x) (map cv_id l) = true); [|congruence].
+    apply mem_nat_In. rewrite <- Heq. apply in_map. assumption. }
+  destruct H1 as [->|H1], H2 as [->|H2]; try reflexivity.
+  - exfalso. apply (Hnot cv' H2). congruence.
+  - exfalso. apply (Hnot cv H1). congruence.
+  - apply IH; assumption.
+Qed.
+
+Lemma cv_ok : forall cv, In cv (fp_vars fp) -> cvar_ok cv = true.
+Proof. intros cv H. destruct fp_flags as [_ [_ [_ [_ Hall]]]]. rewrite forallb_forall in Hall. apply Hall. assumption. Qed.
+
+Lemma cv_unique : forall cv cv', In cv (fp_vars fp) -> In cv' (fp_vars fp) -> cv_id cv = cv_id cv' -> cv = cv'.
+Proof. intros. destruct fp_flags as [_ [_ [_ [Hn _]]]]. eapply nodup_ids; eassumption. Qed.
+
+(* where the accesses of a goroutine come from *)
+Definition is_acc (a : act) : bool := match a with ARd _ => true | AWr _ => true | _ => false end.
+
+Lemma child_access_acc : forall v x b a, In a (child_access v x b) -> is_acc a = true -> a = acc_of (fst (fst x)) v.
+Proof.
+  intros v [[w l] onfail] b a H Ha. unfold child_access in H. destruct (onfail && negb b); [destruct H|].
+  destruct l.
+  - destruct H as [<-|[]]. reflexivity.
+  - destruct H as [<-|[<-|[<-|[]]]]; try discriminate. reflexivity.
+Qed.
+
+Lemma child_body_acc : forall b a, In a (child_body fp b) -> is_acc a = true ->
+  exists cv x, In cv (fp_vars fp) /\ cv_sync cv = false /\ In x (cv_child cv) /\ a = acc_of (fst (fst x)) (cv_id cv).
+Proof.
+  intros b a H Ha. unfold child_body in H. apply in_flat_map in H. destruct H as [cv [Hcv Hin]].
+  destruct (cv_sync cv) eqn:Es.
+  - destruct Hin as [<-|[]]. discriminate.
+  - apply in_flat_map in Hin. destruct Hin as [x [Hx Hin]]. exists cv, x. repeat split; try assumption.
+    eapply child_access_acc; eassumption.
+Qed.
+
+Lemma prog_child_acc : forall u a, 1 <= u <= N -> In a (prog u) -> is_acc a = true -> In a (child_body fp (fails u)).
+Proof.
+  intros u a Hu Hin Ha. rewrite (child_eq u Hu) in Hin. apply in_app_or in Hin. destruct Hin as [Hin|[<-|[]]]; [|discriminate].
+  apply in_app_or in Hin. destruct Hin as [Hin|[<-|[]]]; [assumption|discriminate].
+Qed.
+
+Lemma child_writes_intro : forall cv x, In x (cv_child cv) -> fst (fst x) = true -> child_writes cv = true.
+Proof. intros cv x Hx Hw. unfold child_writes. apply existsb_exists. exists x. split; assumption. Qed.
+
+(* --- main's accesses between go and Wait ------------------------------------------------------------ *)
+
+Definition var_child_writes (v : nat) : bool :=
+  existsb (fun cv => Nat.eqb (cv_id cv) v && negb (cv_sync cv) && child_writes cv) (fp_vars fp).
+Definition var_has_child (v : nat) : bool :=
+  existsb (fun cv => Nat.eqb (cv_id cv) v && negb (cv_sync cv)
+                     && negb (match cv_child cv with [] => true | _ => false end)) (fp_vars fp).
+Definition safe (a : act) : bool :=
+  match a with ARd v => negb (var_child_writes v) | AWr v => negb (var_has_child v) | _ => true end.
+
+Lemma mid_safe : forall a, In a (main_accs cv_mid fp) -> safe a = true.
+Proof.
+  intros a H. unfold main_accs in H. apply in_flat_map in H. destruct H as [cv [Hcv Hin]].
+  destruct (cv_sync cv) eqn:Es; [destruct Hin|]. apply in_map_iff in Hin. destruct Hin as [w [<- Hw]].
+  pose proof (cv_ok cv Hcv) as Hok. unfold cvar_ok in Hok. rewrite Es in Hok. cbn [orb] in Hok.
+  apply andb_true_iff in Hok. destruct Hok as [_ Hmid].
+  destruct w; cbn [acc_of safe]; apply negb_true_iff; apply not_true_iff_false; intros Hex;
+    apply existsb_exists in Hex; destruct Hex as [cv' [Hcv' Hp]];
+    apply andb_true_iff in Hp; destruct Hp as [Hp Hc]; apply andb_true_iff in Hp; destruct Hp as [Hid _];
+    apply Nat.eqb_eq in Hid; assert (cv' = cv) by (apply cv_unique; assumption); subst cv'.
+  - destruct (cv_child cv) eqn:Ec; [discriminate|]. rewrite forallb_forall in Hmid. specialize (Hmid true Hw). discriminate.
+  - destruct (cv_child cv) eqn:Ec; [unfold child_writes in Hc; rewrite Ec in Hc; discriminate|].
+    rewrite forallb_forall in Hmid. specialize (Hmid false Hw). rewrite Hc in Hmid. discriminate.
+Qed.
+
+Lemma safe_no_conflict : forall a u a', safe a = true -> 1 <= u <= N -> In a' (prog u) ->
+  conflict a a' = false /\ conflict a' a = false.
+Proof.
+  intros a u a' Hs Hu Hin.
+  assert (Hgen : forall v, (a = ARd v \/ a = AWr v) -> is_acc a' = true ->
+            forall v', (a' = ARd v' \/ a' = AWr v') -> v = v' -> (a = AWr v \/ a' = AWr v') -> False).
+  { intros v Hav Ha' v' Hav' <- Hwr.
+    destruct (child_body_acc _ _ (prog_child_acc u a' Hu Hin Ha') Ha') as [cv [x [Hcv [Hsy [Hx Heq]]]]].
+    assert (Hid : cv_id cv = v) by (destruct Hav' as [->| ->]; destruct (fst (fst x)); cbn in Heq; congruence).
+    destruct Hav as [->| ->]; cbn [safe] in Hs; apply negb_true_iff in Hs.
+    - (* a reads: a' must write *)
+      destruct Hwr as [Hx0|Hx0]; [discriminate|]. subst a'.
+      assert (Hw : fst (fst x) = true) by (destruct (fst (fst x)); [reflexivity|discriminate]).
+      assert (var_child_writes v = true); [|congruence].
+      apply existsb_exists. exists cv. split; [assumption|]. rewrite Hid, Nat.eqb_refl, Hsy.
+      rewrite (child_writes_intro cv x Hx Hw). reflexivity.
+    - assert (var_has_child v = true); [|congruence].
+      apply existsb_exists. exists cv. split; [assumption|]. rewrite Hid, Nat.eqb_refl, Hsy.
+      destruct (cv_child cv); [destruct Hx|reflexivity]. }
+  split.
+  - destruct (conflict a a') eqn:E; [exfalso|reflexivity].
+    destruct a; try discriminate; destruct a'; try discriminate; cbn [conflict] in E; apply Nat.eqb_eq in E;
+      eapply Hgen; eauto.
+  - destruct (conflict a' a) eqn:E; [exfalso|reflexivity].
+    destruct a'; try discriminate; destruct a; try discriminate; cbn [conflict] in E; apply Nat.eqb_eq in E; symmetry in E;
+      eapply Hgen; eauto.
+Qed.
+
+Fixpoint mid_scan (l : list act) (st : bool) : bool :=
+  match l with
+  | [] => true
+  | a :: r => (if is_acc a && st then safe a else true) && mid_scan r (gstep st a)
+  end.
+
+Lemma mid_scan_decomp : forall P l st a S, mid_scan l st = true -> l = P ++ a :: S -> is_acc a = true ->
+  fold_left gstep P st = true -> safe a = true.
+Proof.
+  induction P as [|x P IH]; intros l st a S H Heq Ha Hst; subst l.
+  - cbn in Hst. subst st. cbn [app mid_scan] in H. rewrite Ha in H. cbn [andb] in H.
+    apply andb_true_iff in H. apply H.
+  - cbn [app mid_scan] in H. apply andb_true_iff in H. destruct H as [_ H]. cbn [fold_left] in Hst.
+    eapply IH; [exact H|reflexivity|assumption|assumption].
+Qed.
+
+Lemma ms_neutral : forall l r st, forallb neutral l = true -> (st = true -> forall a, In a l -> safe a = true) ->
+  mid_scan (l ++ r) st = mid_scan r st.
+Proof.
+  induction l as [|x l IH]; intros r st Hn Hs; [reflexivity|].
+  cbn [forallb] in Hn. apply andb_true_iff in Hn. destruct Hn as [Hx Hl].
+  cbn [app mid_scan].
+  assert (Hg : gstep st x = st) by (destruct x; try discriminate; reflexivity). rewrite Hg.
+  rewrite (IH r st Hl) by (intros Hst a Ha; apply Hs; [exact Hst|right; exact Ha]).
+  destruct st.
+  - rewrite andb_true_r. destruct (is_acc x); [rewrite Hs by (try reflexivity; left; reflexivity)|]; reflexivity.
+  - rewrite andb_false_r. reflexivity.
+Qed.
+
+Lemma ms_gos : forall l r st, mid_scan (map AGo l ++ r) st = mid_scan r (match l with [] => st | _ => true end).
+Proof.
+  induction l as [|x l IH]; intros r st; [reflexivity|].
+  cbn [map app mid_scan is_acc andb gstep]. rewrite IH. destruct l; reflexivity.
+Qed.
+
+Lemma ms_rounds : forall ps, mid_scan (flat_map round ps) false = true.
+Proof.
+  induction ps as [|p ps IH]; [reflexivity|].
+  cbn [flat_map]. unfold round. rewrite <- !app_assoc.
+  rewrite ms_neutral by (try apply main_accs_neutral; discriminate).
+  cbn [app mid_scan is_acc andb gstep]. rewrite ms_gos.
+  rewrite ms_neutral by (try apply main_accs_neutral; intros _ a Ha; apply mid_safe; assumption).
+  cbn [app mid_scan is_acc andb gstep].
+  rewrite ms_neutral by (try apply main_accs_neutral; discriminate). exact IH.
+Qed.
+
+Lemma H_mid' : forall P a S, prog 0 = P ++ a :: S -> after_go P = true ->
+  forall u a', 1 <= u <= N -> In a' (prog u) -> conflict a a' = false /\ conflict a' a = false.
+Proof.
+  intros P a S Heq Hag u a' Hu Hin. rewrite main_eq in Heq.
+  destruct (is_acc a) eqn:Ha.
+  - apply (safe_no_conflict a u a'); try assumption.
+    eapply mid_scan_decomp; [apply (ms_rounds (seq 0 passes))|exact Heq|assumption|exact Hag].
+  - split; destruct a; try discriminate; try reflexivity; destruct a'; reflexivity.
+Qed.
+
+(* --- goroutine accesses under the variable's lock --------------------------------------------------- *)
+
+Definition wpred (v : nat) (cv : cvar) : bool := Nat.eqb (cv_id cv) v && negb (cv_sync cv) && child_writes cv.
+Definition var_lock (v : nat) : nat :=
+  match find (wpred v) (fp_vars fp) with Some cv => lock_of cv | None => 0 end.
+Definition req (a : act) (hl : list nat) : bool :=
+  match a with
+  | ARd v => Nat.eqb (var_lock v) 0 || mem_nat (var_lock v) hl
+  | AWr v => Nat.eqb (var_lock v) 0 || mem_nat (var_lock v) hl
+  | _ => true
+  end.
+Fixpoint lock_scan (l : list act) (hl : list nat) : bool :=
+  match l with [] => true | a :: r => req a hl && lock_scan r (lstep hl a) end.
+
+Lemma lock_scan_decomp : forall P l hl a S, lock_scan l hl = true -> l = P ++ a :: S ->
+  req a (fold_left lstep P hl) = true.
+Proof.
+  induction P as [|x P IH]; intros l hl a S H Heq; subst l.
+  - cbn [app lock_scan] in H. apply andb_true_iff in H. apply H.
+  - cbn [app lock_scan] in H. apply andb_true_iff in H. destruct H as [_ H]. cbn [fold_left].
+    eapply IH; [exact H|reflexivity].
+Qed.
+
+Lemma lock_scan_app : forall l r hl, lock_scan (l ++ r) hl = lock_scan l hl && lock_scan r (fold_left lstep l hl).
+Proof.
+  induction l as [|x l IH]; intros r hl; [reflexivity|].
+  cbn [app lock_scan fold_left]. rewrite IH, andb_assoc. reflexivity.
+Qed.
+
+Lemma var_lock_cases : forall cv, In cv (fp_vars fp) -> cv_sync cv = false ->
+  (child_writes cv = false /\ var_lock (cv_id cv) = 0)
+  \/ (child_writes cv = true /\ var_lock (cv_id cv) = lock_of cv /\ lock_of cv <> 0
+      /\ forall x, In x (cv_child cv) -> snd (fst x) = lock_of cv).
+Proof.
+  intros cv Hcv Hsy. unfold var_lock. destruct (find (wpred (cv_id cv)) (fp_vars fp)) as [cv'|] eqn:Ef.
+  - apply find_some in Ef. destruct Ef as [Hcv' Hp]. unfold wpred in Hp.
+    apply andb_true_iff in Hp. destruct Hp as [Hp Hw]. apply andb_true_iff in Hp. destruct Hp as [Hid _].
+    apply Nat.eqb_eq in Hid. assert (cv' = cv) by (apply cv_unique; assumption). subst cv'. right.
+    pose proof (cv_ok cv Hcv) as Hok. unfold cvar_ok in Hok. rewrite Hsy, Hw in Hok. cbn [orb negb] in Hok.
+    apply andb_true_iff in Hok. destruct Hok as [Hl _]. unfold child_locked in Hl.
+    apply andb_true_iff in Hl. destruct Hl as [Hnz Hall]. apply negb_true_iff, Nat.eqb_neq in Hnz.
+    repeat split; try assumption. intros x Hx. rewrite forallb_forall in Hall. apply Nat.eqb_eq, Hall, Hx.
+  - destruct (child_writes cv) eqn:Ew; [|left; split; reflexivity].
+    pose proof (find_none _ _ Ef cv Hcv) as Hn. unfold wpred in Hn. rewrite Nat.eqb_refl, Hsy, Ew in Hn. discriminate.
+Qed.
+
+Lemma child_access_scan : forall cv x b, In cv (fp_vars fp) -> cv_sync cv = false -> In x (cv_child cv) ->
+  lock_scan (child_access (cv_id cv) x b) [] = true /\ fold_left lstep (child_access (cv_id cv) x b) [] = [].
+Proof.
+  intros cv [[w l] onfail] b Hcv Hsy Hx. unfold child_access. destruct (onfail && negb b); [split; reflexivity|].
+  destruct (var_lock_cases cv Hcv Hsy) as [[Hw Hv]|[Hw [Hv [Hnz Hall]]]].
+  - destruct l, w; cbn [acc_of lock_scan fold_left lstep req remove_nat andb]; rewrite ?Hv, ?Nat.eqb_refl;
+      cbn [Nat.eqb orb andb]; split; reflexivity.
+  - specialize (Hall _ Hx). cbn [fst snd] in Hall. subst l. destruct (lock_of cv) as [|l'] eqn:El; [congruence|].
+    destruct w; cbn [acc_of lock_scan fold_left lstep req remove_nat andb mem_nat]; rewrite ?Hv, ?Nat.eqb_refl;
+      cbn [Nat.eqb orb andb]; rewrite ?Nat.eqb_refl, ?orb_true_r; split; reflexivity.
+Qed.
+
+Lemma flat_scan : forall A (f : A -> list act) l,
+  (forall x, In x l -> lock_scan (f x) [] = true /\ fold_left lstep (f x) [] = []) ->
+  lock_scan (flat_map f l) [] = true /\ fold_left lstep (flat_map f l) [] = [].
+Proof.
+  intros A f l H. induction l as [|x l IH]; [split; reflexivity|].
+  cbn [flat_map]. destruct (H x (or_introl eq_refl)) as [H1 H2].
+  destruct IH as [I1 I2]; [intros; apply H; right; assumption|].
+  rewrite lock_scan_app, fold_left_app, H1, H2, I1, I2. split; reflexivity.
+Qed.
+
+Lemma child_scan : forall b, lock_scan (child_body fp b) [] = true.
+Proof.
+  intros b. unfold child_body. apply flat_scan. intros cv Hcv. destruct (cv_sync cv) eqn:Es; [split; reflexivity|].
+  apply flat_scan. intros x Hx. apply child_access_scan; assumption.
+Qed.
+
+Lemma H_lock' : forall u1 u2 P1 a1 S1 P2 a2 S2, 1 <= u1 <= N -> 1 <= u2 <= N ->
+  prog u1 = P1 ++ a1 :: S1 -> prog u2 = P2 ++ a2 :: S2 -> conflict a1 a2 = true ->
+  exists L, In L (locks_after P1) /\ In L (locks_after P2).
+Proof.
+  intros u1 u2 P1 a1 S1 P2 a2 S2 Hu1 Hu2 He1 He2 Hc.
+  assert (Hscan : forall u, 1 <= u <= N -> lock_scan (prog u) [] = true).
+  { intros u Hu. rewrite (child_eq u Hu), !lock_scan_app, child_scan. reflexivity. }
+  pose proof (lock_scan_decomp _ _ _ _ _ (Hscan u1 Hu1) He1) as R1.
+  pose proof (lock_scan_decomp _ _ _ _ _ (Hscan u2 Hu2) He2) as R2.
+  fold (locks_after P1) in R1. fold (locks_after P2) in R2.
+  (* the variable has a writing goroutine access: its lock is not 0 *)
+  assert (Hv : exists v, (a1 = ARd v \/ a1 = AWr v) /\ (a2 = ARd v \/ a2 = AWr v) /\ var_lock v <> 0).
+  { assert (Hw : forall u a v, 1 <= u <= N -> In a (prog u) -> a = AWr v -> var_lock v <> 0).
+    { intros u a v Hu Hin ->.
+      destruct (child_body_acc _ _ (prog_child_acc u _ Hu Hin eq_refl) eq_refl) as [cv [x [Hcv [Hsy [Hx Heq]]]]].
+      assert (Hwx : fst (fst x) = true) by (destruct (fst (fst x)); [reflexivity|discriminate]).
+      rewrite Hwx in Heq. cbn in Heq. inversion Heq; subst v.
+      destruct (var_lock_cases cv Hcv Hsy) as [[Hcw _]|[_ [Hvl [Hnz _]]]]; [|congruence].
+      rewrite (child_writes_intro cv x Hx Hwx) in Hcw. discriminate. }
+    assert (Hi1 : In a1 (prog u1)) by (rewrite He1; apply in_or_app; right; left; reflexivity).
+    assert (Hi2 : In a2 (prog u2)) by (rewrite He2; apply in_or_app; right; left; reflexivity).
+    destruct a1; try discriminate; destruct a2; try discriminate; cbn [conflict] in Hc; apply Nat.eqb_eq in Hc; subst;
+      eexists; (split; [eauto|split; [eauto|]]); eauto. }
+  destruct Hv as [v [H1 [H2 Hnz]]]. exists (var_lock v).
+  apply Nat.eqb_neq in Hnz.
+  split; apply mem_nat_In.
+  - destruct H1 as [->| ->]; cbn [req] in R1; rewrite Hnz in R1; exact R1.
+  - destruct H2 as [->| ->]; cbn [req] in R2; rewrite Hnz in R2; exact R2.
+Qed.
+
+(* --- the theorem ------------------------------------------------------------------------------------ *)
+
+Theorem phase_race_free : forall c tr, reach prog c tr -> ~ race tr.
+Proof.
+  apply (drf prog N P_out' H_child' H_main_nodone' H_go_once' H_go_range' H_go_total' H_bal' H_mid' H_lock').
+Qed.
+
+End Phase.
+
+(* ---------- refuting happens-before on a concrete trace -------------------------------------------- *)
+
+Lemma hb_closed : forall tr (R : nat -> nat -> bool),
+  (forall i j e1 e2, i < j -> nth_error tr i = Some e1 -> nth_error tr j = Some e2 -> sync_edge e1 e2 = true -> R i j = true) ->
+  (forall i j k, R i j = true -> R j k = true -> R i k = true) ->
+  forall i j, hb tr i j -> R i j = true.
+Proof.
+  intros tr R He Ht i j H. induction H as [i j e1 e2 Hij H1 H2 Hs|i j k _ IH1 _ IH2].
+  - eapply He; eassumption.
+  - eapply Ht; eassumption.
+Qed.
+
+Definition hb_rel (tr : list event) (i j : nat) : bool :=
+  Nat.ltb i (length tr) && Nat.ltb j (length tr) && hb_b tr i j.
+
+Definition edge_at (tr : list event) (i j : nat) : bool :=
+  match nth_error tr i, nth_error tr j with
+  | Some e1, Some e2 => Nat.ltb i j && sync_edge e1 e2
+  | _, _ => false
+  end.
+
+Definition hb_check (tr : list event) : bool :=
+  let idx := seq 0 (length tr) in
+  forallb (fun i => forallb (fun j => implb (edge_at tr i j) (hb_rel tr i j)) idx) idx
+  && forallb (fun i => forallb (fun j => forallb (fun k =>
+       implb (hb_rel tr i j && hb_rel tr j k) (hb_rel tr i k)) idx) idx) idx.
+
+Lemma hb_rel_complete : forall tr, hb_check tr = true -> forall i j, hb tr i j -> hb_rel tr i j = true.
+Proof.
+  intros tr Hc. unfold hb_check in Hc. apply andb_true_iff in Hc. destruct Hc as [C1 C2].
+  assert (Hidx : forall i, i < length tr -> In i (seq 0 (length tr))) by (intros; apply in_seq; lia).
+  apply hb_closed.
+  - intros i j e1 e2 Hij H1 H2 Hs.
+    assert (Hi : i < length tr) by (apply nth_error_Some; congruence).
+    assert (Hj : j < length tr) by (apply nth_error_Some; congruence).
+    rewrite forallb_forall in C1. specialize (C1 i (Hidx i Hi)). rewrite forallb_forall in C1. specialize (C1 j (Hidx j Hj)).
+    unfold edge_at in C1. rewrite H1, H2, Hs in C1. apply Nat.ltb_lt in Hij. rewrite Hij in C1. exact C1.
+  - intros i j k H1 H2.
+    assert (Hb : forall a b, hb_rel tr a b = true -> a < length tr /\ b < length tr).
+    { intros a b H. unfold hb_rel in H. apply andb_true_iff in H. destruct H as [H _]. apply andb_true_iff in H.
+      destruct H as [Ha Hb]. apply Nat.ltb_lt in Ha, Hb. split; assumption. }
+    destruct (Hb _ _ H1) as [Hi Hj]. destruct (Hb _ _ H2) as [_ Hk].
+    rewrite forallb_forall in C2. specialize (C2 i (Hidx i Hi)). rewrite forallb_forall in C2. specialize (C2 j (Hidx j Hj)).
+    rewrite forallb_forall in C2. specialize (C2 k (Hidx k Hk)). rewrite H1, H2 in C2. exact C2.
+Qed.
+
+(* D-C20b: the footprint of the unrepaired scanning closure - `errs = append(errs, ...)` without a lock *)
+Definition fp_unlocked : footprint :=
+  mkFp true true true
+    [mkCvar 1 false [(false, 0, true); (true, 0, true)] [true] [] [false; false];   (* errs *)
+     mkCvar 2 true [] [true] [] []].                                                 (* wg *)
+
+Definition unlocked_sched : list nat := [0; 0; 0; 0; 1; 1; 2; 2].
+Definition unlocked_trace : list event :=
+  Eval vm_compute in
+    match run (init (phase_prog fp_unlocked 2 1 (fun _ => true))) unlocked_sched with Some (_, tr) => tr | None => [] end.
+
+Lemma unlocked_run : exists c, run (init (phase_prog fp_unlocked 2 1 (fun _ => true))) unlocked_sched = Some (c, unlocked_trace).
+Proof. eexists. vm_compute. reflexivity. Qed.
+
+Lemma unlocked_race : race unlocked_trace.
+Proof.
+  exists 5, 6, (1, AWr 1), (2, ARd 1).
+  split; [lia|]. split; [reflexivity|]. split; [reflexivity|]. split; [cbn; discriminate|]. split; [reflexivity|].
+  intros H. apply (hb_rel_complete unlocked_trace) in H; [|vm_compute; reflexivity]. vm_compute in H. discriminate.
+Qed.
